@@ -104,6 +104,15 @@ CHECKS["C16"] = (
     "scaling E by 4 doubles every amplitude with unchanged phase, and for nfft=8 (thorough 12) the sample variance of "
     "the series equals sum_{k>=1} area_k E_k |factor|^2 for arbitrary non-negative E and arbitrary phases.",
     "DESIGN.md#c16", "numpy's FFT and PRNG are replaced by their definitions/models (stated outside the claim).")
+CHECKS["C15"] = (
+    "1D (time=2,nf=3) and 2D (time=2,nf=2,nd=3) spectra filled with pairwise distinct symbols and a NaN: for every "
+    "public operation (add, sub, neg, multiply with/without dimensions, bandpass, isel, indexing, mean, sum, flatten, "
+    "copies, drop_invalid, time/frequency interpolation, bulk parameters, 2D->1D) and sequences of 2..3 (thorough 4) "
+    "operations, every variable of every live operand is element-for-element identical afterwards (identity or z3 "
+    "term equality), results are new objects, deep copies and arithmetic results share no buffers with and do not "
+    "write through to their operands; concatenation of N=1..3 (thorough 4) spectra along time/latitude returns input i "
+    "at index i in every variable (isel and []), flatten keeps the C-order pairing and the count.", "DESIGN.md#c15",
+    "netCDF save/load is outside (file I/O); longer sequences follow by induction from the single-operation claim.")
 NA = {}
 
 ALL = [f"C{i:02d}" for i in range(1, 21)]
